@@ -111,6 +111,10 @@ func buildOutbound() core.BuildFunc {
 			} else {
 				m.N = t.Choose("scn", 2000)
 			}
+			if t.Choose("scn", 25) == 0 {
+				// a message of more than 255 blocks: the block number needs its high byte
+				m.N = []int{62300, 70004, 131000}[t.Choose("scn", 3)]
+			}
 			if !m.W && t.Choose("scn", 2) == 0 {
 				m.Func++ // an even function (a secondary) without W
 			}
@@ -179,6 +183,8 @@ func (h *outbound) app() {
 			item = secs2.B(data)
 			if m.N <= 255 {
 				m.want = append([]byte{0x21, byte(m.N)}, data...)
+			} else if m.N > 65535 {
+				m.want = append([]byte{0x23, byte(m.N >> 16), byte(m.N >> 8), byte(m.N)}, data...)
 			} else {
 				m.want = append([]byte{0x22, byte(m.N >> 8), byte(m.N)}, data...)
 			}
@@ -297,6 +303,9 @@ func (h *outbound) final(reason string) {
 			return
 		}
 		w.Probe(fmt.Sprintf("outbound_blocks_%d", min(int(num), 4)))
+		if num > 255 {
+			w.Probe("outbound_message_of_more_than_255_blocks")
+		}
 	}
 	if k != len(rx) {
 		w.Fail("BLOCKS", "the line carried %d blocks beyond the %d messages sent", len(rx)-k, len(h.msgs))
@@ -450,6 +459,22 @@ func buildInbound() core.BuildFunc {
 					p.Gap = h.t4 - 20*time.Millisecond - t2/10
 				}
 				p.Raw = refe4.Wire(p.H, p.Body)
+				if p.Kind == "valid" && t.Choose("scn", 6) == 0 {
+					// a slow but legal sender: the length byte comes later than T1 (but inside T2) after our
+					// EOT, and/or the block arrives in pieces whose gaps are each below T1 while the whole
+					// takes longer than T1 — T1 is an inter-character timeout, T2 the one for the first byte
+					p.Kind = "valid-slow"
+					first := time.Millisecond
+					if t.Choose("scn", 2) == 1 {
+						first = t1 + 60*time.Millisecond
+					}
+					p.Gaps = []time.Duration{first}
+					if n := len(p.Raw); n >= 8 && t.Choose("scn", 3) != 0 {
+						p.Cuts = []int{n / 4, n / 2, 3 * n / 4}
+						g := t1 * 6 / 10
+						p.Gaps = []time.Duration{first, g, g, g}
+					}
+				}
 				switch p.Kind {
 				case "bad-checksum":
 					p.Raw[len(p.Raw)-1-t.Choose("scn", 2)] ^= byte(1 + t.Choose("scn", 255))
